@@ -33,8 +33,9 @@ GEN_KINDS = {0: RuntimeError, 2: KeyboardInterrupt, 3: SystemExit, 4: Outcome, 5
 
 
 def exc(e):
-    lines = str(e).strip().splitlines()
-    msg = re.sub(r"0x[0-9a-fA-F]+", "0x?", lines[-1] if lines else "")[:400]
+    # the WHOLE text, hierarchical error path included (a path naming modules of an earlier, unrelated failure is a
+    # different error); object addresses are scrubbed, runs of blanks squeezed
+    msg = re.sub(r"[ \t]+", " ", re.sub(r"0x[0-9a-fA-F]+", "0x?", str(e).strip()))[:1500]
     return dict(cls=type(e).__name__, msg=msg)
 
 
